@@ -1,9 +1,627 @@
 /-
-  QEModel.C09 — executable model for property C09 (stub; to be filled in).
+  QEModel.C09 — discrete dynamic programs: Bellman operator, greedy policies,
+  policy evaluation, backward induction, conversion between the product form
+  and the state-action-pair form, and the constructor's validation.
+  Mirrors quantecon/markov/utilities.py (`_s_wise_max_argmax`, `_find_indices`,
+  `_has_sorted_sa_indices`, `_generate_a_indptr`, `_fill_dense_Q`) and
+  quantecon/markov/ddp.py (`DiscreteDP.__init__`, `_check_action_feasibility`,
+  `to_sa_pair_form`, `to_product_form`, `RQ_sigma`, `bellman_operator`,
+  `T_sigma`, `compute_greedy`, `evaluate_policy`, `controlled_mc`,
+  `backward_induction`).
+
+  Scalars are generic; rewards live in `Ext α` (`-inf` or a finite value).
+  `np.linalg.solve` / `spsolve` is a parameter `solve` of `evalPolicy`
+  (the driver instantiates it with an exact Gauss–Jordan elimination at `Rat`).
 -/
 import QEModel.Base
 namespace QE.C09
+open QE
 
-def handle (_toks : List String) : String := "bad-op"
+/-! ### extended scalars: `-inf` or finite -/
+
+inductive Ext (α : Type) where
+  | ninf : Ext α
+  | fin (x : α) : Ext α
+deriving Repr, BEq, DecidableEq
+
+namespace Ext
+variable {α : Type}
+
+instance : Inhabited (Ext α) := ⟨ninf⟩
+
+/-- strict order of IEEE doubles restricted to `{-inf} ∪ finite` -/
+protected def lt [LT α] : Ext α → Ext α → Prop
+  | ninf, fin _ => True
+  | fin a, fin b => a < b
+  | ninf, ninf => False
+  | fin _, ninf => False
+
+instance [LT α] : LT (Ext α) := ⟨Ext.lt⟩
+
+instance [LT α] [DecidableLT α] : DecidableLT (Ext α)
+  | ninf, fin _ => isTrue trivial
+  | fin a, fin b => inferInstanceAs (Decidable (a < b))
+  | ninf, ninf => isFalse (fun h => h)
+  | fin _, ninf => isFalse (fun h => h)
+
+/-- `x + y` with `y` finite (`-inf + y = -inf`) -/
+def addFin [Add α] : Ext α → α → Ext α
+  | ninf, _ => ninf
+  | fin x, y => fin (x + y)
+
+def isNinf : Ext α → Bool
+  | ninf => true
+  | fin _ => false
+
+def toOption : Ext α → Option α
+  | ninf => none
+  | fin x => some x
+
+end Ext
+
+/-! ### `_has_sorted_sa_indices`, `_generate_a_indptr` -/
+
+/-- `_has_sorted_sa_indices(s_indices, a_indices)` -/
+def hasSortedSa : List Nat → List Nat → Bool
+  | s0 :: s1 :: ss, a0 :: a1 :: as =>
+    if s0 > s1 then false
+    else if s0 = s1 ∧ a0 ≥ a1 then false
+    else hasSortedSa (s1 :: ss) (a1 :: as)
+  | _, _ => true
+
+/-- `while idx < L and s_indices[idx] == s: idx += 1`; the state is
+    `(idx, s_indices[idx:])`. -/
+def scanState (s : Nat) : List Nat → Nat → Nat × List Nat
+  | [], idx => (idx, [])
+  | x :: rest, idx => if x = s then scanState s rest (idx + 1) else (idx, x :: rest)
+
+/-- the `for s in range(num_states-1)` loop: emits `out[s+1]` -/
+def genLoop : List Nat → Nat → List Nat → List Nat
+  | _, _, [] => []
+  | rest, idx, s :: ss =>
+    let r := scanState s rest idx
+    r.1 :: genLoop r.2 r.1 ss
+
+/-- `_generate_a_indptr(num_states, s_indices, out)` as repaired (bounded scan):
+    `out[0] = 0`, `out[s+1]` from the scan, finally `out[num_states] = L`. -/
+def generateAIndptr (n : Nat) (sInd : List Nat) : List Nat :=
+  if n = 0 then [sInd.length]
+  else 0 :: genLoop sInd 0 (List.range (n - 1)) ++ [sInd.length]
+
+/-- the scan **before the repair**: `while s_indices[idx] == s: idx += 1`;
+    `none` = a read at an index `≥ len(s_indices)`. -/
+def scanStateU (s : Nat) : List Nat → Nat → Option (Nat × List Nat)
+  | [], _ => none
+  | x :: rest, idx => if x = s then scanStateU s rest (idx + 1) else some (idx, x :: rest)
+
+def genLoopU : List Nat → Nat → List Nat → Option (List Nat)
+  | _, _, [] => some []
+  | rest, idx, s :: ss =>
+    match scanStateU s rest idx with
+    | none => none
+    | some r => (genLoopU r.2 r.1 ss).map (r.1 :: ·)
+
+/-- `_generate_a_indptr` with the unguarded scan (kept to document why the
+    guard `idx < L` was needed). -/
+def generateAIndptrUnbounded (n : Nat) (sInd : List Nat) : Option (List Nat) :=
+  if n = 0 then some [sInd.length]
+  else (genLoopU sInd 0 (List.range (n - 1))).map fun mid => 0 :: mid ++ [sInd.length]
+
+/-! ### re-sorting of unsorted pairs (COO → CSR, `sort_indices`) -/
+
+/-- lexicographic `(s, a)` comparison on `(s, a, original index)` triples -/
+def saLe (x y : Nat × Nat × Nat) : Bool :=
+  x.1 < y.1 || (x.1 == y.1 && x.2.1 ≤ y.2.1)
+
+/-- `sa_ptrs.data`: the original pair indices in lexicographic `(s, a)` order -/
+def resortPairs (sInd aInd : List Nat) : List Nat :=
+  ((List.zip sInd (List.zip aInd (List.range sInd.length))).mergeSort saLe).map fun t => t.2.2
+
+/-- CSR `indptr` of a matrix with `n` rows: `indptr[k]` = number of entries in rows `< k` -/
+def countsIndptr (n : Nat) (sInd : List Nat) : List Nat :=
+  (List.range (n + 1)).map fun k => sInd.countP (· < k)
+
+/-- the rebuild loop `for i in range(n): for j in range(indptr[i], indptr[i+1]): _s[j] = i` -/
+def rebuildS (n : Nat) (indptr : List Nat) : List Nat :=
+  (List.range n).flatMap fun i => List.replicate (indptr.getD (i + 1) 0 - indptr.getD i 0) i
+
+/-- `x[perm]` (fancy indexing by an index array) -/
+def gather {β : Type} (x : List β) (perm : List Nat) (d : β) : List β := perm.map fun i => x.getD i d
+
+/-! ### state-wise maximisation -/
+
+section smax
+variable {β : Type} [LT β] [DecidableLT β] [Inhabited β]
+
+/-- `m = lo; for j in js: if vals[j] > vals[m]: m = j` (strict `>`: first maximum) -/
+def maxIdxLoop (vals : List β) (m : Nat) (js : List Nat) : Nat :=
+  js.foldl (fun m j => if vals.getD m default < vals.getD j default then j else m) m
+
+/-- index (into the pair arrays) selected for state `i` by `_s_wise_max_argmax`;
+    `none` when `a_indptr[i] == a_indptr[i+1]` (the out-arrays are left untouched). -/
+def sWiseIdx (aIndptr : List Nat) (vals : List β) (i : Nat) : Option Nat :=
+  let lo := aIndptr.getD i 0
+  let hi := aIndptr.getD (i + 1) 0
+  if lo ≠ hi then some (maxIdxLoop vals lo (List.range' (lo + 1) (hi - (lo + 1)))) else none
+
+/-- `_s_wise_max_argmax(a_indices, a_indptr, vals, out_max, out_argmax)` per state:
+    `some (out_max[i], out_argmax[i])`, or `none` if state `i` has no pair. -/
+def sWiseMaxArgmax (aInd aIndptr : List Nat) (vals : List β) (n : Nat) : List (Option (β × Nat)) :=
+  (List.range n).map fun i =>
+    (sWiseIdx aIndptr vals i).map fun m => (vals.getD m default, aInd.getD m 0)
+
+/-- `row.argmax()` of NumPy on NaN-free data: first maximum -/
+def argmaxRow (row : List β) : Nat :=
+  maxIdxLoop row 0 (List.range' 1 (row.length - 1))
+
+end smax
+
+/-- `_find_indices(a_indices, a_indptr, sigma, out)` per state: the last `j` in
+    `range(a_indptr[i], a_indptr[i+1])` with `sigma[i] == a_indices[j]`;
+    `none` = `out[i]` is never written (it keeps the contents of `np.empty`). -/
+def findIndex (aInd aIndptr : List Nat) (i : Nat) (act : Nat) : Option Nat :=
+  let lo := aIndptr.getD i 0
+  let hi := aIndptr.getD (i + 1) 0
+  (List.range' lo (hi - lo)).foldl (fun out j => if aInd[j]? = some act then some j else out) none
+
+def findIndices (aInd aIndptr : List Nat) (sigma : List Nat) : List (Option Nat) :=
+  (List.range sigma.length).map fun i => findIndex aInd aIndptr i (sigma.getD i 0)
+
+/-! ### the two representations -/
+
+/-- state-action-pair form (after the constructor: pairs in lexicographic order) -/
+structure SaDDP (α : Type) where
+  n : Nat
+  beta : α
+  R : List (Ext α)
+  Q : List (List α)
+  sInd : List Nat
+  aInd : List Nat
+  aIndptr : List Nat
+deriving Repr
+
+/-- product form: `R` is `n × m` (`-inf` = infeasible), `Q` is `n × m × n` -/
+structure ProdDDP (α : Type) where
+  n : Nat
+  m : Nat
+  beta : α
+  R : List (List (Ext α))
+  Q : List (List (List α))
+deriving Repr
+
+section arith
+variable {α : Type} [Zero α] [Add α] [Mul α]
+
+/-- `q.dot(v)` for one row -/
+def dot : List α → List α → α
+  | a :: as, b :: bs => a * b + dot as bs
+  | _, _ => 0
+
+/-- `r + beta * q.dot(v)` -/
+def qval (beta : α) (r : Ext α) (q v : List α) : Ext α := r.addFin (beta * dot q v)
+
+/-- `vals = R + beta * Q.dot(v)`, shape `(L,)` -/
+def SaDDP.vals (d : SaDDP α) (v : List α) : List (Ext α) :=
+  List.zipWith (fun r q => qval d.beta r q v) d.R d.Q
+
+/-- `vals = R + beta * Q.dot(v)`, shape `(n, m)` -/
+def ProdDDP.vals (d : ProdDDP α) (v : List α) : List (List (Ext α)) :=
+  List.zipWith (fun rs qs => List.zipWith (fun r q => qval d.beta r q v) rs qs) d.R d.Q
+
+variable [LT α] [DecidableLT α]
+
+/-- `bellman_operator(v, Tv, sigma)` in SA-pair form: `(Tv, sigma)`.
+    For a state without pairs the code leaves the out-arrays untouched; the
+    constructor excludes that case (`checkFeasibleSa`), here it shows as `(-inf, 0)`. -/
+def SaDDP.bellman (d : SaDDP α) (v : List α) : List (Ext α) × List Nat :=
+  ((sWiseMaxArgmax d.aInd d.aIndptr (d.vals v) d.n).map fun o => o.getD (Ext.ninf, 0)).unzip
+
+/-- `bellman_operator(v, Tv, sigma)` in product form: `argmax(axis=1)` then the value there -/
+def ProdDDP.bellman (d : ProdDDP α) (v : List α) : List (Ext α) × List Nat :=
+  ((d.vals v).map fun row => let a := argmaxRow row; (row.getD a Ext.ninf, a)).unzip
+
+end arith
+
+/-! ### constructor checks -/
+
+section ctor
+variable {α : Type}
+
+/-- first index in `range n` satisfying `p` (`np.where(...)[0][0]`) -/
+def firstIdx (n : Nat) (p : Nat → Bool) : Option Nat := (List.range n).find? p
+
+/-- `_check_action_feasibility` in SA-pair form. `R_max = s_wise_max(R)` is
+    written only for states with at least one pair. -/
+def checkFeasibleSa [LT α] [DecidableLT α] (n : Nat) (R : List (Ext α)) (aInd aIndptr : List Nat) :
+    Except String Unit :=
+  let rmax := sWiseMaxArgmax aInd aIndptr R n
+  match firstIdx n (fun i => match rmax.getD i none with
+                             | some (x, _) => x.isNinf
+                             | none => false) with
+  | some s => .error s!"ValueError:reward:{s}"
+  | none =>
+    match firstIdx n (fun i => aIndptr.getD (i + 1) 0 - aIndptr.getD i 0 == 0) with
+    | some s => .error s!"ValueError:action:{s}"
+    | none => .ok ()
+
+/-- `_check_action_feasibility` in product form: `R.max(axis=1) == -inf` -/
+def checkFeasibleProd (R : List (List (Ext α))) : Except String Unit :=
+  match firstIdx R.length (fun i => (R.getD i []).all Ext.isNinf) with
+  | some s => .error s!"ValueError:reward:{s}"
+  | none => .ok ()
+
+variable [Zero α] [One α] [LT α] [LE α] [DecidableLT α] [DecidableLE α]
+
+def checkBeta (beta : α) : Except String Unit :=
+  if 0 ≤ beta ∧ beta ≤ 1 then .ok () else .error "ValueError:beta"
+
+/-- `DiscreteDP(R, Q, beta, s_indices, a_indices)` with 2-dimensional `Q` (`n` = `Q.shape[1]`) -/
+def mkSa (n : Nat) (beta : α) (R : List (Ext α)) (Q : List (List α)) (sInd aInd : List Nat) :
+    Except String (SaDDP α) :=
+  let L := Q.length
+  if R.length ≠ L then .error "ValueError:shape"
+  else if ¬ (sInd.length = L ∧ aInd.length = L) then .error "ValueError:length"
+  else
+    let d : SaDDP α :=
+      if hasSortedSa sInd aInd then
+        { n := n, beta := beta, R := R, Q := Q, sInd := sInd, aInd := aInd,
+          aIndptr := generateAIndptr n sInd }
+      else
+        let perm := resortPairs sInd aInd
+        let indptr := countsIndptr n sInd
+        { n := n, beta := beta, R := gather R perm Ext.ninf, Q := gather Q perm [],
+          sInd := rebuildS n indptr, aInd := gather aInd perm 0, aIndptr := indptr }
+    match checkFeasibleSa n d.R d.aInd d.aIndptr with
+    | .error e => .error e
+    | .ok _ =>
+      match checkBeta beta with
+      | .error e => .error e
+      | .ok _ => .ok d
+
+/-- `DiscreteDP(R, Q, beta)` with 3-dimensional `Q` -/
+def mkProd (beta : α) (R : List (List (Ext α))) (Q : List (List (List α))) :
+    Except String (ProdDDP α) :=
+  let n := R.length
+  let m := (R.headD []).length
+  if ¬ (R.all (·.length == m) ∧ Q.length = n ∧ Q.all (fun qs => qs.length == m && qs.all (·.length == n)))
+  then .error "ValueError:shape"
+  else
+    match checkFeasibleProd R with
+    | .error e => .error e
+    | .ok _ =>
+      match checkBeta beta with
+      | .error e => .error e
+      | .ok _ => .ok { n := n, m := m, beta := beta, R := R, Q := Q }
+
+/-! ### form conversion -/
+
+/-- `np.where(R > -inf)` in row-major order, with the rewards and `Q` rows there -/
+def feasiblePairs (R : List (List (Ext α))) (Q : List (List (List α))) :
+    List (Nat × Nat × α × List α) :=
+  (List.range R.length).flatMap fun s =>
+    let row := R.getD s []
+    (List.range row.length).filterMap fun a =>
+      match row.getD a Ext.ninf with
+      | .ninf => none
+      | .fin r => some (s, a, r, (Q.getD s []).getD a [])
+
+/-- `to_sa_pair_form()` of a product-form instance -/
+def toSaPair (d : ProdDDP α) : Except String (SaDDP α) :=
+  let ps := feasiblePairs d.R d.Q
+  mkSa d.n d.beta (ps.map fun p => Ext.fin p.2.2.1) (ps.map fun p => p.2.2.2)
+    (ps.map fun p => p.1) (ps.map fun p => p.2.1)
+
+/-- index of the last pair equal to `(s, a)` (the write `R[s_indices, a_indices] = R`
+    and `_fill_dense_Q` visit the pairs in order, later writes win) -/
+def lookupPair (sInd aInd : List Nat) (s a : Nat) : Option Nat :=
+  (List.range sInd.length).foldl
+    (fun out i => if sInd[i]? = some s ∧ aInd[i]? = some a then some i else out) none
+
+/-- `to_product_form()` of an SA-pair instance -/
+def toProduct (d : SaDDP α) : Except String (ProdDDP α) :=
+  let na := d.aInd.foldl max 0 + 1
+  let R := (List.range d.n).map fun s => (List.range na).map fun a =>
+    match lookupPair d.sInd d.aInd s a with
+    | some i => d.R.getD i Ext.ninf
+    | none => Ext.ninf
+  let Q := (List.range d.n).map fun s => (List.range na).map fun a =>
+    match lookupPair d.sInd d.aInd s a with
+    | some i => d.Q.getD i []
+    | none => List.replicate d.n 0
+  mkProd d.beta R Q
+
+end ctor
+
+/-! ### policies -/
+
+section policy
+variable {α : Type}
+
+/-- `RQ_sigma(sigma)` in SA-pair form; `none` if some `sigma[i]` is not an action
+    of state `i` (the code then indexes with uninitialised memory). -/
+def SaDDP.rqSigma (d : SaDDP α) (sigma : List Nat) : Option (List (Ext α) × List (List α)) :=
+  (findIndices d.aInd d.aIndptr (sigma.take d.n)).mapM (fun o => o) |>.map fun idx =>
+    (gather d.R idx Ext.ninf, gather d.Q idx [])
+
+/-- `RQ_sigma(sigma)` in product form; `none` if some `sigma[i] ≥ m` (IndexError) -/
+def ProdDDP.rqSigma (d : ProdDDP α) (sigma : List Nat) : Option (List (Ext α) × List (List α)) :=
+  if sigma.length = d.n ∧ sigma.all (· < d.m) then
+    some ((List.range d.n).map (fun s => (d.R.getD s []).getD (sigma.getD s 0) Ext.ninf),
+          (List.range d.n).map (fun s => (d.Q.getD s []).getD (sigma.getD s 0) []))
+  else none
+
+variable [Zero α] [Add α] [Mul α]
+
+/-- `T_sigma(sigma)(v) = R_sigma + beta * Q_sigma.dot(v)` -/
+def tSigmaOf (beta : α) (rq : List (Ext α) × List (List α)) (v : List α) : List (Ext α) :=
+  List.zipWith (fun r q => qval beta r q v) rq.1 rq.2
+
+def SaDDP.tSigma (d : SaDDP α) (sigma : List Nat) (v : List α) : Option (List (Ext α)) :=
+  (d.rqSigma sigma).map fun rq => tSigmaOf d.beta rq v
+
+def ProdDDP.tSigma (d : ProdDDP α) (sigma : List Nat) (v : List α) : Option (List (Ext α)) :=
+  (d.rqSigma sigma).map fun rq => tSigmaOf d.beta rq v
+
+variable [One α] [Sub α] [BEq α]
+
+/-- `A = I - beta * Q_sigma` -/
+def policyMatrix (beta : α) (Qs : List (List α)) : List (List α) :=
+  Qs.mapIdx fun i row => row.mapIdx fun j q => (if i = j then (1 : α) else 0) - beta * q
+
+/-- `evaluate_policy(sigma)`: `NotImplementedError` when `beta == 1`, else the
+    solution of `(I - beta Q_sigma) v = R_sigma` by `solve`.
+    `undef` = infeasible policy / `-inf` reward / `solve` failed (outside the modelled domain). -/
+def evalPolicyOf (solve : List (List α) → List α → Option (List α)) (beta : α)
+    (rq : Option (List (Ext α) × List (List α))) : Except String (List α) :=
+  if beta == 1 then .error "NotImplementedError"
+  else match rq with
+    | none => .error "undef"
+    | some (Rs, Qs) =>
+      match Rs.mapM Ext.toOption with
+      | none => .error "undef"
+      | some b =>
+        match solve (policyMatrix beta Qs) b with
+        | none => .error "undef"
+        | some x => .ok x
+
+def SaDDP.evalPolicy (solve : List (List α) → List α → Option (List α)) (d : SaDDP α)
+    (sigma : List Nat) : Except String (List α) := evalPolicyOf solve d.beta (d.rqSigma sigma)
+
+def ProdDDP.evalPolicy (solve : List (List α) → List α → Option (List α)) (d : ProdDDP α)
+    (sigma : List Nat) : Except String (List α) := evalPolicyOf solve d.beta (d.rqSigma sigma)
+
+end policy
+
+/-! ### exact Gauss–Jordan elimination (the driver's `solve`) -/
+
+section gj
+variable {α : Type} [Zero α] [Sub α] [Mul α] [Div α] [BEq α]
+
+def gjStep (n : Nat) (st : Option (List (List α))) (c : Nat) : Option (List (List α)) :=
+  st.bind fun rows =>
+    match (List.range' c (n - c)).find? (fun p => !((rows.getD p []).getD c 0 == 0)) with
+    | none => none
+    | some p =>
+      let rp := rows.getD p []
+      let rc := rows.getD c []
+      let rows1 := (rows.set p rc).set c rp
+      let piv := rp.getD c 0
+      let prow := rp.map (· / piv)
+      some (rows1.mapIdx fun i r =>
+        if i = c then prow
+        else
+          let f := r.getD c 0
+          List.zipWith (fun x y => x - f * y) r prow)
+
+def gaussJordan (A : List (List α)) (b : List α) : Option (List α) :=
+  let n := A.length
+  let aug := List.zipWith (fun r bi => r ++ [bi]) A b
+  ((List.range n).foldl (gjStep n) (some aug)).map fun rows => rows.map fun r => r.getD n 0
+
+end gj
+
+/-! ### both forms under one type; backward induction -/
+
+inductive DDP (α : Type) where
+  | sa (d : SaDDP α)
+  | prod (d : ProdDDP α)
+
+section ddp
+variable {α : Type}
+
+def DDP.n : DDP α → Nat
+  | .sa d => d.n
+  | .prod d => d.n
+
+def DDP.beta : DDP α → α
+  | .sa d => d.beta
+  | .prod d => d.beta
+
+def DDP.rqSigma : DDP α → List Nat → Option (List (Ext α) × List (List α))
+  | .sa d, s => d.rqSigma s
+  | .prod d, s => d.rqSigma s
+
+variable [Zero α] [Add α] [Mul α]
+
+def DDP.tSigma (d : DDP α) (sigma : List Nat) (v : List α) : Option (List (Ext α)) :=
+  (d.rqSigma sigma).map fun rq => tSigmaOf d.beta rq v
+
+variable [LT α] [DecidableLT α]
+
+/-- `bellman_operator(v, Tv, sigma)`: `(Tv, sigma)` -/
+def DDP.bellman : DDP α → List α → List (Ext α) × List Nat
+  | .sa d, v => d.bellman v
+  | .prod d, v => d.bellman v
+
+/-- the loop `for t in range(T, 0, -1)` of `backward_induction`, `k` iterations left,
+    `v = vs[k]`; returns rows `vs[0..k-1]` and `sigmas[0..k-1]` (earliest first).
+    `none` if a `-inf` value appears (excluded by the constructor's check). -/
+def backwardLoop (d : DDP α) : Nat → List α → Option (List (List α) × List (List Nat))
+  | 0, _ => some ([], [])
+  | k + 1, v =>
+    let r := d.bellman v
+    match r.1.mapM Ext.toOption with
+    | none => none
+    | some tv =>
+      match backwardLoop d k tv with
+      | none => none
+      | some (vs, ss) => some (vs ++ [tv], ss ++ [r.2])
+
+/-- `backward_induction(ddp, T, v_term)`: `(vs, sigmas)` of shapes `(T+1, n)`, `(T, n)`;
+    `v_term = None` is the zero vector. -/
+def backwardInduction (d : DDP α) (T : Nat) (vTerm : Option (List α)) :
+    Option (List (List α) × List (List Nat)) :=
+  let vT := vTerm.getD (List.replicate d.n 0)
+  (backwardLoop d T vT).map fun r => (r.1 ++ [vT], r.2)
+
+end ddp
+
+/-! ### line protocol -/
+
+def parseExt? (s : String) : Option (Ext Rat) :=
+  if s = "ninf" then some .ninf else (parseRat? s).map .fin
+
+def showExt : Ext Rat → String
+  | .ninf => "ninf"
+  | .fin q => showRat q
+
+def kvExts (toks : List String) (key : String) : Option (List (Ext Rat)) :=
+  (kv toks key).bind (parseList? parseExt?)
+
+/-- split a list into consecutive chunks of length `m` (`k` chunks) -/
+def chunks {β : Type} (m : Nat) : Nat → List β → List (List β)
+  | 0, _ => []
+  | k + 1, l => l.take m :: chunks m k (l.drop m)
+
+def showSa (d : SaDDP Rat) : String :=
+  "ok|indptr=" ++ showList toString d.aIndptr ++ "|s=" ++ showList toString d.sInd ++
+  "|a=" ++ showList toString d.aInd ++ "|R=" ++ showList showExt d.R ++ "|Q=" ++ showMat showRat d.Q
+
+def showProd (d : ProdDDP Rat) : String :=
+  "ok|n=" ++ toString d.n ++ "|m=" ++ toString d.m ++ "|R=" ++ showMat showExt d.R ++
+  "|Q=" ++ showMat showRat d.Q.flatten
+
+def errKind (e : String) : String := "ERR:" ++ e
+
+/-- parse the instance described on the line and run the model constructor -/
+def parseDDP (r : List String) : Option (Except String (DDP Rat)) :=
+  match kv r "form", kvRat r "beta" with
+  | some "prod", some beta =>
+    match kvNat r "n", kvNat r "m", kvExts r "R", kvRatMat r "Q" with
+    | some n, some m, some R, some Q =>
+      if R.length = n * m ∧ Q.length = n * m then
+        some ((mkProd beta (chunks m n R) (chunks m n Q)).map DDP.prod)
+      else none
+    | _, _, _, _ => none
+  | some "sa", some beta =>
+    match kvNat r "n", kvExts r "R", kvRatMat r "Q", kvNats r "s", kvNats r "a" with
+    | some n, some R, some Q, some s, some a => some ((mkSa n beta R Q s a).map DDP.sa)
+    | _, _, _, _, _ => none
+  | _, _ => none
+
+def showExcept {β : Type} (f : β → String) : Except String β → String
+  | .ok x => f x
+  | .error e => errKind e
+
+def rqShow (rq : Option (List (Ext Rat) × List (List Rat))) : String :=
+  match rq with
+  | some (R, Q) => "R=" ++ showList showExt R ++ "|Q=" ++ showMat showRat Q
+  | none => "undef"
+
+def runOp (op : String) (r : List String) (d : DDP Rat) : String :=
+  match op with
+  | "ctor" =>
+    match d with
+    | .sa d => showSa d
+    | .prod d => showProd d
+  | "bellman" =>
+    match kvRats r "v" with
+    | some v => let b := d.bellman v
+                "Tv=" ++ showList showExt b.1 ++ "|sigma=" ++ showList toString b.2
+    | none => "bad-op"
+  | "bellmanTv" =>
+    match kvRats r "v" with
+    | some v => "Tv=" ++ showList showExt (d.bellman v).1
+    | none => "bad-op"
+  | "greedy" =>
+    match kvRats r "v" with
+    | some v => "sigma=" ++ showList toString (d.bellman v).2
+    | none => "bad-op"
+  | "rqsigma" =>
+    match kvNats r "sigma" with
+    | some s => rqShow (d.rqSigma s)
+    | none => "bad-op"
+  | "cmc" =>
+    match kvNats r "sigma" with
+    | some s => match d.rqSigma s with
+                | some (_, Q) => "P=" ++ showMat showRat Q
+                | none => "undef"
+    | none => "bad-op"
+  | "tsigma" =>
+    match kvNats r "sigma", kvRats r "v" with
+    | some s, some v => match d.tSigma s v with
+                        | some x => showList showExt x
+                        | none => "undef"
+    | _, _ => "bad-op"
+  | "evalpol" =>
+    match kvNats r "sigma" with
+    | some s => showExcept (showList showRat) (evalPolicyOf gaussJordan d.beta (d.rqSigma s))
+    | none => "bad-op"
+  | "backward" =>
+    match kvNat r "T", kv r "vterm" with
+    | some T, some vt =>
+      let vTerm : Option (Option (List Rat)) :=
+        if vt = "none" then some none else (parseList? parseRat? vt).map some
+      match vTerm with
+      | none => "bad-op"
+      | some vTerm =>
+        match backwardInduction d T vTerm with
+        | some (vs, ss) => "vs=" ++ showMat showRat vs ++ "|sigmas=" ++ showMat toString ss
+        | none => "undef"
+    | _, _ => "bad-op"
+  | "tosa" =>
+    match d with
+    | .prod d => showExcept showSa (toSaPair d)
+    | .sa d => showSa d
+  | "toprod" =>
+    match d with
+    | .sa d => showExcept showProd (toProduct d)
+    | .prod d => showProd d
+  | "tosa_toprod" =>
+    match d with
+    | .prod d => match toSaPair d with
+                 | .ok e => showExcept showProd (toProduct e)
+                 | .error e => errKind e
+    | .sa _ => "bad-op"
+  | "toprod_tosa" =>
+    match d with
+    | .sa d => match toProduct d with
+               | .ok e => showExcept showSa (toSaPair e)
+               | .error e => errKind e
+    | .prod _ => "bad-op"
+  | _ => "bad-op"
+
+def handle (toks : List String) : String :=
+  match toks with
+  | "aindptr" :: r =>
+    match kvNat r "n", kvNats r "s" with
+    | some n, some s => showList toString (generateAIndptr n s)
+    | _, _ => "bad-op"
+  | "aindptrU" :: r =>
+    match kvNat r "n", kvNats r "s" with
+    | some n, some s => match generateAIndptrUnbounded n s with
+                        | some l => showList toString l
+                        | none => "ERR:IndexError"
+    | _, _ => "bad-op"
+  | "sorted" :: r =>
+    match kvNats r "s", kvNats r "a" with
+    | some s, some a => showBool (hasSortedSa s a)
+    | _, _ => "bad-op"
+  | op :: r =>
+    match parseDDP r with
+    | none => "bad-op"
+    | some (.error e) => errKind e
+    | some (.ok d) => runOp op r d
+  | _ => "bad-op"
 
 end QE.C09
